@@ -1,4 +1,9 @@
-import E57
+import E57.Drv.Bits
+import E57.Drv.Pages
+import E57.Drv.Writer
+import E57.Drv.Reader
+import E57.Drv.Spec
+import E57.Drv.Enc
 open E57 E57.Drv
 
 def dispatch (engine : String) (toks : List String) : String :=
@@ -7,6 +12,9 @@ def dispatch (engine : String) (toks : List String) : String :=
   | "pages" => pagesLine toks
   | "writer" => writerLine toks
   | "reader" => readerLine toks
+  | "layout" => readerLine toks
+  | "spec" => specLine toks
+  | "enc" => encLine toks
   | _ => "BADENGINE"
 
 partial def loop (engine : String) (h : IO.FS.Stream) (out : IO.FS.Stream) : IO Unit := do
